@@ -20,6 +20,7 @@ REQUIRED_COUNTERS = ["c14_solo_decodes", "c14_comparisons", "c14_ctx_pool", "c14
 MIN_NONTRIVIAL = {"quick": 2500, "thorough": 30000}
 WORKERS = {"quick": 14, "thorough": 16}
 BUDGET_S = {"quick": 500, "thorough": 3000}
+THOROUGH_ROUNDS = 3
 
 COMBOS = (
     [("am", e, {}) for e in ("tsp", "cvrp", "cvrptw", "sdvrp", "svrp", "op", "pctsp", "spctsp", "pdp", "mtsp", "mtvrp", "mdcpdp", "smtwtp")]
